@@ -148,6 +148,10 @@ class PartEval:
             if isinstance(a, list) and tag(i) == 'const' and isinstance(i[2], int) and i[2] < len(a):
                 return a[i[2]]
             return None
+        if k == 'len' and tag(t[1]) == 'call' and len(t[1][2]) == 2 and t[1][1].startswith('<linalg::array::matrix::Matrix as std::ops::Index'):
+            # a row of a Matrix (`m[i]`) has ncols elements
+            m = self.value(f, t[1][2][0])
+            return m.c if isinstance(m, Mat) else None
         if k == 'discr':
             e = self.value(f, t[1])
             if isinstance(e, Enum):
@@ -221,6 +225,14 @@ class PartEval:
                     return self.eq(m.r, m.c)
             if p in self.prog.pdb.bodies and short(p) == 'calc_broadcast_shape':
                 return self.classify(p, [self.value(f, x) for x in a])
+            if short(p) == 'len' and p.startswith('core::slice') and len(a) == 1 and tag(a[0]) == 'call' and len(a[0][2]) == 2 \
+                    and a[0][1].startswith('<linalg::array::matrix::Matrix as std::ops::Index'):
+                # a row of a Matrix (`m[i]`) has ncols elements
+                m = self.value(f, a[0][2][0])
+                return m.c if isinstance(m, Mat) else None
+            if p in ('std::cmp::Ord::min', 'std::cmp::Ord::max', 'std::cmp::min', 'std::cmp::max') and len(a) == 2:
+                x, y = self.value(f, a[0]), self.value(f, a[1])
+                return x if self.eq(x, y) is True else None
             if p in self.prog.pdb.bodies or short(p) in ('clone', 'to_owned'):
                 return self.matrix_value(f, t)
             return None
